@@ -159,7 +159,7 @@ func c10checkHeld(cl *Client, l *c10ledger, hist string) {
 	}
 }
 
-var c10ops = []string{"send-m", "raw-p", "send-r", "in-r", "a=0", "a=1", "a=w-1", "a=w", "a=w+1"}
+var c10ops = []string{"send-m", "raw-p", "send-mp", "send-r", "in-r", "a=0", "a=1", "a=w-1", "a=w", "a=w+1"}
 
 func c10body(first []string, maxLen int) func() {
 	return func() {
@@ -199,6 +199,13 @@ func c10body(first []string, maxLen int) func() {
 			case "send-m":
 				m := stanza.Message{Attrs: stanza.Attrs{To: "peer@example.org", Id: fmt.Sprintf("m%d", i), Type: "chat"}, Body: fmt.Sprintf("body %d", i)}
 				l.accept(fmt.Sprintf(`<message type="chat" id="m%d" to="peer@example.org"><body>body %d</body></message>`, i, i), false)
+				if err := s.cl.Send(m); err != nil {
+					vrt.Fail("C10|send-error", "%s: %v", hist, err)
+				}
+			case "send-mp":
+				// the same kind of stanza passed by pointer (both forms implement stanza.Packet)
+				m := &stanza.Message{Attrs: stanza.Attrs{To: "peer@example.org", Id: fmt.Sprintf("mp%d", i), Type: "chat"}, Body: fmt.Sprintf("ptr %d", i)}
+				l.accept(fmt.Sprintf(`<message type="chat" id="mp%d" to="peer@example.org"><body>ptr %d</body></message>`, i, i), false)
 				if err := s.cl.Send(m); err != nil {
 					vrt.Fail("C10|send-error", "%s: %v", hist, err)
 				}
@@ -274,7 +281,7 @@ func c10body(first []string, maxLen int) func() {
 						vrt.Fail("C10|wrote-although-nothing-held", "%s", ctx)
 					}
 				}
-			case op == "send-m" || op == "raw-p":
+			case op == "send-m" || op == "raw-p" || op == "send-mp":
 				if len(raws) != 1 || raws[0] != l.log[len(l.log)-1].raw {
 					vrt.Fail("C10|send-wire-wrong", "history [%s]: wrote %q, want exactly %q", hist, raws, l.log[len(l.log)-1].raw)
 				}
